@@ -224,7 +224,9 @@ type TxScript struct {
 
 var (
 	argNames   = []string{"a", "b", "A", "c", "id", "x1", "a"}
-	argValues  = []string{"1", "2", "foo", "Bar", "EVIL", "evil", "a+b", "%41bc", "x y", "", "tok1", "tok2", "<ScRipt>"}
+	argValues  = []string{"1", "2", "foo", "Bar", "EVIL", "evil", "a+b", "%41bc", "x y", "", "tok1", "tok2", "<ScRipt>",
+		// long values (anything that treats long inputs differently: verdict caches, chunked copies)
+		"evil" + strings.Repeat("x", 120), strings.Repeat("a", 60) + "+" + strings.Repeat("b", 60)}
 	hdrNames   = []string{"X-A", "x-a", "X-B", "User-Agent", "X-Tok"}
 	transPool  = []string{"lowercase", "uppercase", "urlDecode", "trim", "removeWhitespace", "length", "hexEncode", "base64Encode", "compressWhitespace", "none", "sha1", "removeNulls"}
 	reqVars    = []string{"ARGS", "ARGS_GET", "ARGS_POST", "ARGS_NAMES", "ARGS_GET_NAMES", "ARGS_POST_NAMES", "REQUEST_HEADERS", "REQUEST_HEADERS_NAMES", "REQUEST_COOKIES", "REQUEST_COOKIES_NAMES", "REQUEST_URI", "QUERY_STRING", "REQUEST_METHOD"}
